@@ -146,6 +146,7 @@ struct Exec {
     sim::OpenPolicy knobs;   // benign environment knobs, persistent
     uint64_t seed = 0;
     uint64_t sched_hash = 0x1234;
+    std::set<uint64_t> option_sets;
 
     Exec(const J& p, const ExecOptions& o) : plan(p), opt(o) {}
 
@@ -427,7 +428,10 @@ struct Exec {
         clear_policy();
         tm none = {};
         note_saved(file, op, "oas", false, none);
+        finfo[file].max_points = (uint64_t)op.geti("flags");
         count("save_oas");
+        res.counters["oas_option_sets"] += 0;
+        option_sets.insert(((uint64_t)op.geti("flags") << 8) | ((uint64_t)op.geti("level") << 1) | (op.getd("tol") > 0 ? 1 : 0));
         if (ec != ErrorCode::NoError) count(std::string("save_code_") + bridge::error_name(ec));
         J ctx = J::obj();
         drain_seam_violations(prop, ctx);
@@ -541,7 +545,9 @@ struct Exec {
         if (!W->fs.exists(file)) return;
         std::vector<uint8_t>& b = W->fs.bytes(file);
         if (b.empty()) return;
-        uint64_t at = (uint64_t)op.geti("at") % b.size();
+        uint64_t span = b.size();
+        if (op.has("keep_tail") && span > (uint64_t)op.geti("keep_tail")) span -= (uint64_t)op.geti("keep_tail");
+        uint64_t at = (uint64_t)op.geti("at") % span;
         uint8_t mask = (uint8_t)op.geti("mask");
         if (!mask) mask = 1;
         b[at] ^= mask;
@@ -1716,6 +1722,264 @@ struct Exec {
         check_handles(prop, ctx);
     }
 
+
+    // ============================================================= OASIS (C02)
+    static uint32_t crc32_ieee(const uint8_t* p, size_t n) {
+        static uint32_t table[256];
+        static bool init = false;
+        if (!init) {
+            for (uint32_t i = 0; i < 256; i++) {
+                uint32_t c = i;
+                for (int k = 0; k < 8; k++) c = (c & 1) ? (0xEDB88320u ^ (c >> 1)) : (c >> 1);
+                table[i] = c;
+            }
+            init = true;
+        }
+        uint32_t c = 0xFFFFFFFFu;
+        for (size_t i = 0; i < n; i++) c = table[(c ^ p[i]) & 0xFF] ^ (c >> 8);
+        return c ^ 0xFFFFFFFFu;
+    }
+
+    Expect expect_oas(int k) {
+        Expect E;
+        const model::MLib& m = models[k];
+        canon::Options o;
+        o.mode = canon::OAS;
+        E.c = canon::from_model(m, o);
+        for (auto& mc : m.cells) {
+            canon::CCell& cc = E.c.cells[mc.name];
+            for (auto& p : mc.paths) {
+                std::string props = canon::props_str(p.props, canon::OAS);
+                if (!p.simple) {
+                    std::vector<region::Poly> outl;
+                    guarded([&]() { outl = bridge::path_outline(m, p, nullptr, false); });
+                    for (auto& q : outl) {
+                        bool ok;
+                        std::string line = canon::poly_line(p.layer, p.dtype, q, canon::rep_grid(p.rep), props, ok);
+                        if (ok) cc.polys.push_back(line);
+                    }
+                } else if (p.impl == 1) {
+                    std::vector<region::Poly> cl;
+                    guarded([&]() { cl = bridge::robust_centres(m, p, false); });
+                    std::vector<canon::IPt> sp;
+                    for (auto& q : p.spine) sp.push_back(canon::rgrid(q));
+                    bool ok;
+                    std::string raw = canon::path_line(canon::OAS, p.layer, p.dtype, sp, 2 * canon::rgrid(p.hw), p.end,
+                                                       canon::rgrid(p.eu), canon::rgrid(p.ev), true, canon::rep_grid(p.rep), props, ok);
+                    auto it = std::find(cc.paths.begin(), cc.paths.end(), raw);
+                    if (it != cc.paths.end()) cc.paths.erase(it);
+                    for (auto& q : cl) {
+                        std::string line = canon::path_line(canon::OAS, p.layer, p.dtype, q, 2 * canon::rgrid(p.hw), p.end,
+                                                            canon::rgrid(p.eu), canon::rgrid(p.ev), true, canon::rep_grid(p.rep), props, ok);
+                        if (ok) cc.paths.push_back(line);
+                    }
+                }
+            }
+            std::sort(cc.polys.begin(), cc.polys.end());
+            std::sort(cc.paths.begin(), cc.paths.end());
+        }
+        return E;
+    }
+
+    static double seg_dist(double px, double py, const canon::IPt& a, const canon::IPt& b) {
+        double dx = (double)(b.x - a.x), dy = (double)(b.y - a.y);
+        double l2 = dx * dx + dy * dy;
+        double t = l2 > 0 ? ((px - a.x) * dx + (py - a.y) * dy) / l2 : 0;
+        t = t < 0 ? 0 : (t > 1 ? 1 : t);
+        return hypot(a.x + t * dx - px, a.y + t * dy - py);
+    }
+    static double boundary_dist(const canon::IPt& p, const std::vector<canon::IPt>& poly) {
+        double best = 1e300;
+        for (size_t i = 0; i < poly.size(); i++) best = std::min(best, seg_dist((double)p.x, (double)p.y, poly[i], poly[(i + 1) % poly.size()]));
+        return best;
+    }
+
+    // Detected circles re-load as polygons "within the stated tolerances of the original": when the
+    // exact vertex cycle of a polygon is missing, a found polygon with the same tag, repetition and
+    // properties whose boundary stays within the tolerances of the original's boundary (both ways)
+    // takes its place.  Bound: circle tolerance twice (fit + chord sagitta of the original), centre and
+    // radius rounding, vertex rounding, and the reader's own sampling tolerance.
+    void accept_circles(int k, double tol_user, double read_tol_user, Expect& E, const canon::CLib& got) {
+        const model::MLib& m = models[k];
+        double g = m.unit / m.precision;
+        double read_tol = read_tol_user > 0 ? read_tol_user * g : 1.0;
+        double bound = 2.0 * tol_user * g + 2.5 + read_tol;
+        for (auto& mc : m.cells) {
+            auto git = got.cells.find(mc.name);
+            if (git == got.cells.end()) continue;
+            canon::CCell& ec = E.c.cells[mc.name];
+            for (auto& p : mc.polys) {
+                if (p.pts.size() < 8) continue;
+                std::vector<canon::IPt> pts;
+                for (auto& q : p.pts) pts.push_back(canon::rgrid(q));
+                bool ok;
+                std::string props = canon::props_str(p.props, canon::OAS);
+                std::string exact = canon::poly_line(p.layer, p.dtype, pts, canon::rep_grid(p.rep), props, ok);
+                if (!ok) continue;
+                if (std::find(git->second.polys.begin(), git->second.polys.end(), exact) != git->second.polys.end()) continue;
+                for (auto& kv : git->second.poly_pts) {
+                    const std::vector<canon::IPt>& f = kv.second;
+                    if (f.size() < 6) continue;
+                    std::string cand = canon::poly_line(p.layer, p.dtype, f, canon::rep_grid(p.rep), props, ok);
+                    if (cand != kv.first) continue;  // tag, repetition or properties differ
+                    if (std::find(ec.polys.begin(), ec.polys.end(), cand) != ec.polys.end()) continue;  // already claimed
+                    double worst = 0;
+                    for (auto& v : f) worst = std::max(worst, boundary_dist(v, pts));
+                    for (auto& v : pts) worst = std::max(worst, boundary_dist(v, f));
+                    if (worst > bound) continue;
+                    auto it = std::find(ec.polys.begin(), ec.polys.end(), exact);
+                    if (it != ec.polys.end()) {
+                        *it = cand;
+                        count(p.hint == 1 ? "circles_accepted" : "circles_accepted_unplanned");
+                    }
+                    break;
+                }
+            }
+            std::sort(ec.polys.begin(), ec.polys.end());
+        }
+    }
+
+    void op_load_check_oas(const J& op) {
+        std::string file = op.gets("file");
+        if (!W->fs.exists(file)) return;
+        FileInfo& fi = finfo[file];
+        ErrorCode ec = ErrorCode::NoError;
+        Library lib = {};
+        bool returned = guarded([&]() { lib = read_oas(file.c_str(), op.getd("unit", 0), op.getd("tol", 0), &ec); });
+        J ctx = J::obj();
+        ctx.set("file_state", "complete");
+        ctx.set("flags", (int64_t)fi.max_points);
+        count("load_check_oas");
+        if (!returned) {
+            drain_seam_violations(prop, ctx);
+            check_handles(prop, ctx);
+            return;
+        }
+        const J& ex = op.at("expect");
+        Expect E;
+        bool have = false;
+        if (ex.has("model")) {
+            int k = (int)ex.geti("model");
+            if (k >= 0 && k < (int)models.size()) {
+                E = expect_oas(k);
+                have = true;
+            }
+        } else if (ex.has("canon") && canons.count(ex.gets("canon"))) {
+            E.c = canons[ex.gets("canon")];
+            have = true;
+        }
+        bridge::ExtractOptions xo;
+        xo.mode = canon::OAS;
+        canon::CLib got;
+        guarded([&]() { got = bridge::extract(lib, xo); });
+        feature_state("load_check_oas", ex.has("model") ? (int)ex.geti("model") : fi.model, fi.max_points, (ex.has("canon") ? 1 : 0) | ((uint64_t)op.geti("level_class") << 1));
+        if (have) {
+            bool dangling = false;
+            if (ex.has("model")) {
+                const model::MLib& m = models[ex.geti("model")];
+                for (auto& c : m.cells)
+                    for (auto& r : c.refs)
+                        if (!m.in_lib(r.target)) dangling = true;
+                if (op.getd("circle_tol", 0) > 0) accept_circles((int)ex.geti("model"), op.getd("circle_tol"), op.getd("tol", 0), E, got);
+            }
+            ErrorCode want = dangling ? ErrorCode::MissingReference : ErrorCode::NoError;
+            if (ec != want && !ex.has("canon")) {
+                viol(prop, "error_code", std::string("read_oas reported ") + bridge::error_name(ec) + " for a file write_oas produced (expected " + bridge::error_name(want) + ")", ctx);
+            } else {
+                std::string clause, why;
+                if (canon::differ(E.c, got, false, clause, why)) {
+                    if (ex.has("canon")) ctx.set("expect", "canon");
+                    if (clause == "paths") {
+                        size_t q0 = why.find("cell '"), q1 = q0 == std::string::npos ? q0 : why.find("':", q0);
+                        if (q1 != std::string::npos) {
+                            auto it = E.c.cells.find(why.substr(q0 + 6, q1 - q0 - 6));
+                            if (it != E.c.cells.end())
+                                ctx.set("cell_had_path_vertices_one_grid_step_apart", it->second.close_path_vertices > 0);
+                        }
+                    }
+                    ctx.set("flags", J());
+                    viol(prop, clause, why, ctx);
+                }
+            }
+        }
+        if (op.has("keep")) {
+            std::string name = op.gets("keep");
+            if (have) got.precision = E.c.precision;
+            canons[name] = got;
+            if (libs.count(name)) guarded([&]() { libs[name].free_all(); });
+            libs[name] = lib;
+        } else {
+            guarded([&]() { lib.free_all(); });
+        }
+        drain_seam_violations(prop, ctx);
+        check_handles(prop, ctx);
+    }
+
+    void op_resave_oas(const J& op) {
+        std::string from = op.gets("from"), file = op.gets("file");
+        if (!libs.count(from)) return;
+        Library& lib = libs[from];
+        ErrorCode ec = ErrorCode::NoError;
+        guarded([&]() {
+            set_policy(op);
+            ec = lib.write_oas(file.c_str(), op.getd("tol"), (uint8_t)op.geti("level"), (uint16_t)op.geti("flags"));
+        });
+        clear_policy();
+        tm none = {};
+        note_saved(file, op, "oas", false, none);
+        finfo[file].max_points = (uint64_t)op.geti("flags");
+        count("resave_oas");
+        J ctx = J::obj();
+        drain_seam_violations(prop, ctx);
+        check_handles(prop, ctx);
+    }
+
+    // signature clause: stored bytes vs an independent CRC-32 / byte sum, and oas_validate's answer,
+    // on the pristine file and after flips
+    void op_validate_check(const J& op) {
+        std::string file = op.gets("file");
+        if (!W->fs.exists(file)) return;
+        FileInfo& fi = finfo[file];
+        const std::vector<uint8_t>& b = W->fs.bytes(file);
+        J ctx = J::obj();
+        ctx.set("scheme", fi.oas_sig);
+        ctx.set("flipped", fi.damage == "flip");
+        count("validate_check");
+        if (b.size() < 6) return;
+        uint32_t sig = 0xdeadbeef;
+        ErrorCode ec = ErrorCode::NoError;
+        bool ok = false;
+        bool returned = guarded([&]() { ok = oas_validate(file.c_str(), &sig, &ec); });
+        if (returned) {
+            uint8_t scheme = b[b.size() - 5];
+            uint32_t stored = (uint32_t)b[b.size() - 4] | ((uint32_t)b[b.size() - 3] << 8) | ((uint32_t)b[b.size() - 2] << 16) | ((uint32_t)b[b.size() - 1] << 24);
+            uint32_t mine = 0;
+            if (scheme == 1) mine = crc32_ieee(b.data(), b.size() - 4);
+            if (scheme == 2)
+                for (size_t i = 0; i + 4 < b.size(); i++) mine += b[i];
+            bool magic_ok = b.size() >= 14 && memcmp(b.data(), "%SEMI-OASIS\r\n\x01", 14) == 0;
+            if (fi.oas_sig != 0 && fi.damage.empty()) {
+                if (scheme != fi.oas_sig)
+                    viol(prop, "signature_scheme", "write_oas was asked for validation scheme " + std::to_string(fi.oas_sig) + " but the END record says " + std::to_string(scheme), ctx);
+                else if (stored != mine)
+                    viol(prop, "signature_bytes", "the stored signature does not match the file bytes (independent computation)", ctx);
+                else if (!(ok && ec == ErrorCode::NoError))
+                    viol(prop, "signature_rejected", std::string("oas_validate rejects the pristine signed file: ") + (ok ? "true" : "false") + " " + bridge::error_name(ec), ctx);
+                else if (sig != mine)
+                    viol(prop, "signature_reported", "oas_validate reports a signature that differs from the independent computation", ctx);
+            } else if (magic_ok && (scheme == 1 || scheme == 2)) {
+                bool expect_ok = stored == mine;
+                if (ok != expect_ok)
+                    viol(prop, "signature_verdict", std::string("oas_validate answered ") + (ok ? "true" : "false") + " for a file whose stored signature " + (expect_ok ? "matches" : "does not match") + " its bytes", ctx);
+            } else if (fi.oas_sig == 0 && fi.damage.empty()) {
+                if (!(ok && ec == ErrorCode::ChecksumError))
+                    viol(prop, "unsigned_verdict", std::string("oas_validate on an unsigned file: ") + (ok ? "true" : "false") + " " + bridge::error_name(ec), ctx);
+            }
+        }
+        drain_seam_violations(prop, ctx);
+        check_handles(prop, ctx);
+    }
+
     // bounded liveness after the faults: a small library must still save and load
     void op_canary(const J& op) {
         (void)op;
@@ -1788,11 +2052,15 @@ struct Exec {
             else if (opname == "writer_raw") op_writer_raw(op);
             else if (opname == "writer_close") op_writer_close(op);
             else if (opname == "stamp") op_stamp(op);
+            else if (opname == "load_check_oas") op_load_check_oas(op);
+            else if (opname == "resave_oas") op_resave_oas(op);
+            else if (opname == "validate_check") op_validate_check(op);
             else op_reader(op);
             res.steps++;
             sched_hash = sim::Trace::mix(sched_hash, fnv(opname) ^ (uint64_t)expected_open());
         }
         if (prop == "C17") res.states.insert(sched_hash);
+        for (uint64_t o : option_sets) res.states.insert(sim::Trace::mix(0x0A5, o));
         // end of run: release whatever sessions still hold
         step = (int)ops.a.size();
         opname = "end";
